@@ -272,6 +272,10 @@ func checkFraming(p *Prog, r *Report) {
 				if c == nil || in == ssa.Instruction(full) || in == ssa.Instruction(lenCall) {
 					return
 				}
+				// handing the reader to the reader goroutine itself (a function literal that takes it as a parameter) consumes nothing
+				if lit := literalCallee(c); lit != nil && (lit == f || lit.Parent() == f.Parent()) {
+					return
+				}
 				for _, a := range c.Args {
 					if typeName(a.Type()) == "bufio.Reader" && p.origin(a) == rdr {
 						other = calleeName(c) + " in " + fnKey(g)
@@ -429,7 +433,7 @@ func errEdgeLeavesLoop(ev ssa.Value, loopHead *ssa.BasicBlock) bool {
 				succ = 1
 			}
 			found = true
-			if reachableBlock(i.Block().Succs[succ], loopHead) {
+			if reachableBlockEdge(i.Block(), i.Block().Succs[succ], loopHead) {
 				allLeave = false
 			}
 		}
@@ -471,4 +475,19 @@ func decoderAliasingCases(p *Prog) []string {
 		}
 	})
 	return out
+}
+
+// literalCallee: the function literal applied by this call (go func(...){...}(args)), if any.
+func literalCallee(c *ssa.CallCommon) *ssa.Function {
+	switch v := c.Value.(type) {
+	case *ssa.Function:
+		if v.Parent() != nil {
+			return v
+		}
+	case *ssa.MakeClosure:
+		if fn, ok := v.Fn.(*ssa.Function); ok {
+			return fn
+		}
+	}
+	return nil
 }
